@@ -33,6 +33,18 @@ HOUSEKEEPING_CLASSES = {
 }
 
 
+def _rank(o):
+    # the named obligations of the specification lead the report; arithmetic / pointer side conditions and loop invariants follow
+    n = o['name']
+    if '.postcondition.' in n or '.precondition' in n:
+        return 0
+    if '.assertion.' in n:
+        return 1
+    if 'loop_invariant' in n or 'loop_decreases' in n:
+        return 3
+    return 2
+
+
 class Harness:
     def __init__(self, name, prop, parts, enforce=None, replace=(), loop_contracts=False,
                  flags=(), backend='sat', timeout=300, inputs=(), bounded=None,
@@ -246,6 +258,12 @@ def run_harness(h, outdir, tier):
     if warn:
         res['reason'] = 'solver ignored a construct: ' + warn[0]
         return res
+    undefined = [o for o in obs if 'undefined function should be unreachable' in o['description'] and o['status'] != 'SUCCESS']
+    if undefined:
+        # the code calls a function (or template instantiation) that this harness did not extract: a limit of the harness, not a verdict
+        res['status'] = 'broken'
+        res['reason'] = 'extraction incomplete: %s is called but was not extracted (%s)' % (undefined[0]['name'].split('.')[0], undefined[0]['name'])
+        return res
     bad_internal = [o for o in obs if o['kind'] in ('internal', 'housekeeping') and o['status'] != 'SUCCESS']
     has_real_failure = any(o['counted'] and o['status'] == 'FAILURE' for o in obs)
     # instrumentation obligations that are not discharged make the run undecided - unless a counted obligation
@@ -279,6 +297,8 @@ def run_harness(h, outdir, tier):
         res['reason'] = 'obligation status %s for %s' % (unknown[0]['status'], unknown[0]['name'])
         return res
     failed = [o for o in counted if o['status'] == 'FAILURE']
+
+    failed.sort(key=_rank)
     res['status'] = 'failed' if failed else 'proved'
     if failed:
         # second run for a counterexample trace of the leading failed obligation (best effort: trace
@@ -440,6 +460,7 @@ def run_property(prop, harnesses, tier, seed, meta, partial=False):
     for h, o in violations:
         by_h.setdefault(h.name, (h, []))[1].append(o)
     for hname, (h, obs) in by_h.items():
+        obs.sort(key=_rank)
         lead = obs[0]
         inputs = {k: v for k, v in (lead.get('inputs') or {}).items()}
         reproduced, rtext, rcmd = (False, '', '')
